@@ -20,10 +20,12 @@ import (
 	"bufio"
 	"context"
 	"encoding/json"
+	"fmt"
 	"math/rand"
 	"os"
 	"sort"
 	"strconv"
+	"strings"
 	"time"
 
 	badger "github.com/dgraph-io/badger/v2"
@@ -33,6 +35,7 @@ import (
 	"github.com/marekgalovic/anndb/storage"
 	"github.com/marekgalovic/anndb/storage/raft"
 	"github.com/marekgalovic/anndb/storage/wal"
+	"github.com/marekgalovic/anndb/utils"
 	uuid "github.com/satori/go.uuid"
 	_ "verifharness/internal/hx"
 )
@@ -81,6 +84,7 @@ type part struct {
 	Id     string `json:"id"`
 	Nodes  []int  `json:"nodes"`  // as the dataset descriptor (Meta) lists them: what List / Get / the catalogue snapshot say
 	PNodes []int  `json:"pnodes"` // as the partition object itself holds them: what routing and raft loading go by
+	Route  string `json:"route"`  // where a write for an id this partition owns goes: "local" | "forward" (C10: the owner's replicas, as listed)
 }
 type dsv struct {
 	Id    string `json:"id"`
@@ -90,7 +94,7 @@ type dsv struct {
 	Parts []part `json:"parts"`
 }
 
-func (m *mgr) view(ids []uuid.UUID) []dsv {
+func (m *mgr) view(ids []uuid.UUID, probe bool) []dsv {
 	out := []dsv{}
 	for _, id := range ids {
 		ds, err := m.dm.Get(id)
@@ -108,12 +112,47 @@ func (m *mgr) view(ids []uuid.UUID) []dsv {
 			for _, n := range ds.VerifPartitionNodes(len(v.Parts)) {
 				pns = append(pns, int(n))
 			}
-			v.Parts = append(v.Parts, part{pid.String()[:8], ns, pns})
+			rt := ""
+			if probe {
+				rt = routeOf(ds, len(v.Parts), len(ds.Meta().GetPartitions()), int(ds.Meta().GetDimension()))
+			}
+			v.Parts = append(v.Parts, part{pid.String()[:8], ns, pns, rt})
 		}
 		out = append(out, v)
 	}
 	sort.Slice(out, func(i, j int) bool { return out[i].Id < out[j].Id })
 	return out
+}
+
+// routeOf: a write for an id that partition pi owns, issued on this node: it is applied here ("local": whatever the
+// local raft group then says) or sent to one of the partition's replicas ("forward": the other nodes have no address
+// in this harness, which is what the call then fails with)
+func routeOf(ds *storage.Dataset, pi, np, dim int) string {
+	for i := 0; i < np; i++ {
+		if len(ds.VerifPartitionNodes(i)) == 0 {
+			return "none" // a partition without any replica (the random logs remove nodes freely): nowhere to route to
+		}
+	}
+	var id uuid.UUID
+	for k := 0; k < 100000; k++ {
+		id[0], id[8], id[9], id[15] = byte(k), byte(k>>8), byte(k>>16), 0x70
+		if int(utils.UuidMod(id, uint64(np))) == pi {
+			break
+		}
+		if k == 99999 {
+			return "none"
+		}
+	}
+	ctx, cancel := context.WithTimeout(context.Background(), 30*time.Millisecond)
+	defer cancel()
+	err := ds.Remove(ctx, id) // an id nobody inserted: nothing changes wherever it is applied
+	if err != nil && strings.Contains(err.Error(), cluster.NodeAddressNotFoundError.Error()) {
+		return "forward"
+	}
+	if os.Getenv("VERIF_ROUTE_DEBUG") != "" {
+		os.Stderr.WriteString(fmt.Sprintf("route pi=%d np=%d nodes=%v err=%v\n", pi, np, ds.VerifPartitionNodes(pi), err))
+	}
+	return "local"
 }
 
 func main() {
@@ -318,7 +357,7 @@ func main() {
 		}
 		time.Sleep(2 * time.Millisecond)
 		enc.Encode(map[string]interface{}{"ev": "cat", "hid": hid, "log": desc, "cut": cut, "snapat": snapAt, "res": res, "kept": keeps,
-			"a": a.view(ids), "b": b.view(ids), "c": c.view(ids)})
+			"a": a.view(ids, false), "b": b.view(ids, true), "c": c.view(ids, false)})
 		a.close(ids, entry)
 		b.close(ids, entry)
 		c.close(ids, entry)
